@@ -73,6 +73,15 @@ fn settings(c: &Case, out: &mut Out) -> Option<TypeGeneratorSettings> {
             "codec_attrs" => s = s.insert_codec_attributes(),
             "alloc" => s.alloc_crate_path = AllocCratePath::Custom(p(rest)),
             "derive_all" => s = s.add_derives_for_all([p(rest)]),
+            "subst_if_absent" | "subst_extend" => {
+                let (a, b) = rest.split_once(" => ").expect("subst a => b");
+                let to = scale_typegen::typegen::settings::substitutes::absolute_path(p(b)).expect("absolute");
+                if k == "subst_if_absent" {
+                    s.substitutes.insert_if_not_exists(p(a), to).expect("insert_if_not_exists");
+                } else {
+                    s.substitutes.extend([(p(a), to)]).expect("extend");
+                }
+            }
             "subst" => {
                 let (a, b) = rest.split_once(" => ").expect("subst a => b");
                 match scale_typegen::typegen::settings::substitutes::absolute_path(p(b)) {
